@@ -89,7 +89,7 @@ func renderFasta(headers, seqs []string, l layout) string {
 	return out
 }
 
-var nameStems = []string{"q", "seq", "hCoV-19/x", "EPI_ISL_", "s.", "A|B|"}
+var nameStems = []string{"q", "seq", "hCoV-19/x", "EPI_ISL_", "s.", "A|B|", "hCoV-19%2Fx%2F", "s100%id_"}
 
 // splitNames splits a comma-separated name field of a case; a comma inside a name travels as %2C
 func splitNames(s string) []string {
